@@ -104,7 +104,19 @@ class Gen(object):
     def lazy_expr(self, d):
         r = self.r
         sub = lambda: self.atom() if r.random() < 0.5 else self.expr(d - 1)   # noqa
-        k = r.randint(0, 5)
+        k = r.randint(0, 8)
+        if k >= 6:
+            # lazy operands that nest operations 2-3 deep behind an operand the original may skip
+            deep = r.choice(['%s(%s(%s))', '%s(k0=%s(%s(%s)))' if False else '%s(k0=%s(%s))', '(%s + %s(%s))', '%s[%s(%s)].m',
+                             '%s(%s, %s(%s(%s)))' if False else '%s(%s(%s), 1)']) % (self.name(), self.name(), self.name())
+            if r.random() < 0.4:
+                deep = '%s(%s)' % (self.name(), deep)
+            first = r.choice([self.name(), self.name(), 'None', '0', '1', 'True'])
+            if k == 6:
+                return '(%s %s %s)' % (first, r.choice(['and', 'or']), deep)
+            if k == 7:
+                return r.choice(['(%s if %s else %s)' % (deep, first, self.atom()), '(%s if %s else %s)' % (self.atom(), first, deep)])
+            return '(lambda: %s)' % deep
         if k == 0:
             return '(%s %s %s)' % (sub(), r.choice(['and', 'or']), sub())
         if k == 1:
@@ -293,6 +305,31 @@ def _field_names():
 NESTED_FIELDS = sorted({a for a in _field_names() for b in _field_names() if a != b and (a in b or b in a)})
 # the ones that name an operand position of the fragment (where a loose match changes the outcome)
 NESTED_OPERAND_FIELDS = ['value', 'values', 'args', 'elts', 'keys', 'target', 'targets', 'body', 'test', 'items', 'exc']
+
+def depth_selective_configs(anf):
+    """configurations that never name a direct operand of a lazy construct (the parent slot is a strict
+    node class) but name positions deeper inside it"""
+    P = anf.ASTEdgePattern
+    return [
+        ([(P(ast.Call, 'args', ast.expr), anf.REPLACE)], "[(anf.ASTEdgePattern(ast.Call, 'args', ast.expr), anf.REPLACE)]"),
+        ([(P(ast.Call, 'args', ast.Call), anf.REPLACE)], "[(anf.ASTEdgePattern(ast.Call, 'args', ast.Call), anf.REPLACE)]"),
+        ([(P(ast.Call, 'keywords', anf.ANY), anf.REPLACE)], "[(anf.ASTEdgePattern(ast.Call, 'keywords', anf.ANY), anf.REPLACE)]"),
+        ([(P(ast.BinOp, anf.ANY, (ast.Call, ast.Attribute)), anf.REPLACE)],
+         "[(anf.ASTEdgePattern(ast.BinOp, anf.ANY, (ast.Call, ast.Attribute)), anf.REPLACE)]"),
+        ([(P(ast.Subscript, 'slice', ast.expr), anf.REPLACE)], "[(anf.ASTEdgePattern(ast.Subscript, 'slice', ast.expr), anf.REPLACE)]"),
+        ([(P(ast.Attribute, 'value', ast.Subscript), anf.REPLACE), (P(ast.Call, anf.ANY, ast.Call), anf.REPLACE)],
+         "[(anf.ASTEdgePattern(ast.Attribute, 'value', ast.Subscript), anf.REPLACE), (anf.ASTEdgePattern(ast.Call, anf.ANY, ast.Call), anf.REPLACE)]"),
+        ([(P((ast.Call, ast.BinOp, ast.Subscript), anf.ANY, (ast.Call, ast.BinOp, ast.Subscript)), anf.REPLACE)],
+         "[(anf.ASTEdgePattern((ast.Call, ast.BinOp, ast.Subscript), anf.ANY, (ast.Call, ast.BinOp, ast.Subscript)), anf.REPLACE)]"),
+    ]
+
+
+DEEP_LAZY_PROGRAMS = [
+    'return None and f(g(x))', 'return 1 or f(k0=g(h(x)))', 'return (f(g(x)) if 0 else y)',
+    'return (y if 1 else a + f(b[g(c)]))', 'z = lambda: f(g(x), 1)\n  return z', 'if 0 and f(g(x)).m:\n    return b\n  return c',
+    'return f(0 or g(h(x)))', 'x = [None and f(a + g(b))]\n  return x', 'return a and f(g(x))', 'return (a or b[g(c)].m, d)',
+]
+
 
 def gen_config(rnd, anf):
     """None (default) or a random list of (pattern, directive)."""
